@@ -261,3 +261,9 @@ func WithAttachments(atts []AttSpec) []byte {
 	cat.body = strings.TrimSuffix(cat.body, ">>") + fmt.Sprintf("/Names<</EmbeddedFiles %s>>>>", Ref(nt))
 	return d.Bytes()
 }
+
+// PatchCatalog appends entries to the catalog dictionary.
+func (d *Doc) PatchCatalog(entries string) {
+	cat := d.objs[d.Root]
+	cat.body = strings.TrimSuffix(cat.body, ">>") + entries + ">>"
+}
